@@ -34,5 +34,56 @@ McDev2 == {"Dev_ConfirmCacheSelfDeadlock"}
 McDev3 == {"Dev_HandshakeLenLimit1GiB"}
 McDev4 == {"Dev_GetBlocksRangeUnbounded"}
 McDev5 == {"Dev_EciesShortCiphertextPanics"}
+\* ------------------------------------------------------------------ the sequence layer (WireSeq)
+NoBlocks == {}
+NoMsgs == {}
+NoConfirms == {}
+NoMix == {}
+\* the valid chain a remote deputy can produce (V1 on genesis, V2 on V1, V3 on V2) and junk around it
+V1 == <<"V1", 1, "G", "v">>
+V2 == <<"V2", 2, "V1", "v">>
+V3 == <<"V3", 3, "V2", "v">>
+Ja == <<"Ja", 5, "V1", "j">>     \* junk on a valid block that has not arrived yet: waits, and can be handed over once V1 is there
+Jb == <<"Jb", 6, "V1", "j">>     \* same parent, another height
+Jc == <<"Jc", 5, "V1", "j">>     \* same parent, the height of Ja (two blocks in one slot)
+Jd == <<"Jd", -1, "U", "j">>     \* height 2^32-1 on a parent nobody has: waits for ever, in the last slot
+Je == <<"Je", 9, "Ja", "j">>     \* junk on junk: a gap that never closes
+Jf == <<"Jf", 2, "U", "j">>      \* the lowest height that can wait, parent nobody has
+Jg == <<"Jg", 0, "U", "j">>      \* height 0
+Jh == <<"Jh", 1, "U", "j">>      \* height 1 on an unknown parent ("different genesis")
+Ji == <<"Ji", 7, "G", "j">>      \* a wrong height on a parent the chain has: goes straight to the chain, which rejects it
+Jk == <<"Jk", 3, "V2", "j">>     \* junk competing with V3
+Jl == <<"Jl", -1, "V2", "j">>    \* height 2^32-1 on a valid block
+Seqs(S, k) == UNION {[1..j -> S] : j \in 1..k}
+\* quick: one valid block, three junk children of it in two slots, one block that never leaves the last slot
+McSeqBlocksQ == {V1, Ja, Jb, Jc, Jd}
+McSeqMsgsQ == Seqs(McSeqBlocksQ, 1) \cup {<<Ja, Jb>>, <<Jb, Ja>>, <<Ja, Jc>>, <<Ja, Ja>>, <<Jb, Jd>>, <<V1, Ja>>, <<Ja, V1>>, <<V1, V1>>}
+McSeqConfirmsQ == {<<V1, "d2">>, <<Jb, "x">>}
+McSeqMixQ == {"Txs_Duplicate", "GetBlocks_Wrap"}
+\* thorough: two valid blocks, junk around both, every ordered pair of the blocks that matter most
+McSeqBlocksT == {V1, V2, Ja, Jb, Jc, Jd, Jk}
+McSeqMsgsT == Seqs(McSeqBlocksT, 1) \cup Seqs({V1, Ja, Jb, Jd}, 2)
+              \cup {<<V2, V1>>, <<V1, V2>>, <<Ja, Jc>>, <<Jk, V2>>, <<V2, Jk>>, <<Ja, Jb, Jc>>, <<Jb, Ja, V1>>, <<V2, V1, V2>>}
+McSeqConfirmsT == {<<V1, "d2">>, <<V2, "d1">>, <<V1, "x">>}      \* the last one: a junk signature waiting for a valid block
+McSeqMixT == {"Txs_Duplicate", "GetBlocks_Wrap"}
+\* thorough, second graph: absurd heights and parents around the same chain
+McSeqBlocksU == {V1, V2, Ja, Je, Jf, Jg, Jh, Ji, Jl}
+McSeqMsgsU == Seqs(McSeqBlocksU, 1) \cup {<<Jh, Ja>>, <<Ja, Jh>>, <<Ji, Ja>>, <<Ja, Ji>>, <<Jg, Jf>>, <<Jl, Ja>>, <<Ja, Je>>, <<Je, Ja>>, <<V1, Jf>>, <<Jl, Jl>>, <<V1, V2, Jl>>}
+McSeqConfirmsU == {<<V1, "d2max">>, <<Jg, "d2zero">>, <<V1, "z">>}     \* absurd height fields, an all-zero signature
+McSeqMixU == {"Confirm_MaxHeight", "Status_Max"}
+\* in the sequence layer only the genuine handshakes lead to an established connection
+SeqRows(mix) == {t \in ClassTable : t[1] \in {"HsGood", "OhsGood", "Phs_Good", "GetStatus_Good"} \cup mix}
+\* ... and of the interleaved single-message classes the enumeration goes on after those the node must keep the connection for;
+\* after the others ("any": keeping or dropping are both fine) the remote party reconnects
+SeqCarriers(mix) == {"HsGood", "OhsGood", "Phs_Good"} \cup {c \in mix : \E t \in ClassTable : t[1] = c /\ "Est" \in t[2] /\ t[3] = "keep"}
+McTableSeqQ == SeqRows(McSeqMixQ)
+McTableSeqT == SeqRows(McSeqMixT)
+McCarriersSeqQ == SeqCarriers(McSeqMixQ)
+McCarriersSeqT == SeqCarriers(McSeqMixT)
+McTableSeqU == SeqRows(McSeqMixU)
+McCarriersSeqU == SeqCarriers(McSeqMixU)
+McHeavySeq == {}
+McMaxInSeq == [d \in {"in", "out"} |-> Mx(1, 1)]
+McDev6 == {"Dev_CachePassEmptiesTwoSlots"}
 UniqueRows == \A c \in Classes : \A ph \in Phases : Cardinality(Rows(c, ph)) <= 1
 ====
